@@ -94,6 +94,9 @@ impl IncrState {
                 n.observers.borrow().len(),
             )
             .unwrap();
+            if let Some((fs, inv, all, edges)) = n.verif_expert() {
+                write!(s, " x=[fs={} inv={} all={} edges={}]", b(fs), inv, b(all), edges).unwrap();
+            }
             out.push(format!("snap {}", s));
         }
         // heap
